@@ -600,6 +600,9 @@ func (w *rdWorld) apply(o rdOp) ([]int64, error) {
 		r := w.results[0]
 		w.results = w.results[1:]
 		return w.stepPC(w.pcPID, r), nil
+	case "TermCC":
+		// the watched consumer controller is reported dead; its replacement registers afresh on its next tick
+		return w.stepPC(w.sys.NoSender(), NewTerminated(w.ccs.Path())), nil
 	case "TickPC":
 		return w.stepPC(w.pcPID, &producerControllerTick{generation: w.pc.generation}), nil
 	case "TickCC":
@@ -859,6 +862,11 @@ func (s *rdSched) next() rdOp {
 	}
 	if len(s.w.results) > 0 {
 		cands = append(cands, cand{30, func() (rdOp, bool) { return rdOp{Op: "QueueResult"}, true }})
+	}
+	if s.w.chunk > 0 || s.w.queue != nil {
+		// consumer-controller death and replacement, as the producer controller sees it: a Terminated notice, then
+		// the (replacement) consumer controller registers under a fresh nonce on its next silent tick
+		cands = append(cands, cand{3, func() (rdOp, bool) { return rdOp{Op: "TermCC"}, true }})
 	}
 	if len(s.pendPC) > 0 {
 		cands = append(cands, cand{m.wDelPC, func() (rdOp, bool) {
